@@ -170,5 +170,5 @@ pub fn gen_lock_case(rng: &mut Rng) -> Case {
     p.monitors = true;
     let mut knobs = crate::gen::gen_knobs(rng, &p);
     knobs.p_spurious_park = 0;
-    Case { cap: Cap::Bounded(0), ctor: Flavour::Sync, class: crate::payload::Class::U32, mask: 0, knobs, tasks, main_keeps_roots: false, lock_harness: true, epilogue: vec![] }
+    Case { cap: Cap::Bounded(0), ctor: Flavour::Sync, class: crate::payload::Class::U32, mask: 0, knobs, tasks, main_keeps_roots: false, lock_harness: true, epilogue: vec![], balanced: false }
 }
